@@ -878,3 +878,16 @@ func (t *Task) Result() any { return t.Data }
 //
 //go:norace
 func (s *Sim) LocksHeld() int { return len(s.locks) }
+
+// WriteLocksHeld is the number of locks currently held exclusively by a task.
+//
+//go:norace
+func (s *Sim) WriteLocksHeld() int {
+	n := 0
+	for _, l := range s.locks {
+		if l.writer != nil {
+			n++
+		}
+	}
+	return n
+}
